@@ -17,6 +17,7 @@ Family ==
     [] Fam = "xfers" -> XfersFamily
     [] Fam = "schemas" -> SchemasFamily
     [] Fam = "annots" -> AnnotsFamily
+    [] Fam = "dynscope" -> DynScopeFamily
     [] Fam = "recinst" -> {RecInst(nm) : nm \in RecInstNames}
     [] Fam = "recgraphs2" -> RecGraphs(2)
     [] Fam = "posshape" -> {ProgOf(pn, sn, ind) : pn \in AllPositions, sn \in AllShapes, ind \in {"direct", "let", "reflet", "idfn", "implet", "impfn"}}
